@@ -71,11 +71,14 @@ define_precedence! {
         Modulo: modulo,
     }
 
-    // Precedence 5 (highest)
+    // Precedence 5: power
     precedence 5, Right => {
         Power: power,
     }
-    precedence 5, Left => {
+
+    // Precedence 6 (highest): coalesce. It was registered after power in the Pratt parser
+    // all along, so it has always bound tighter; the number now says so too.
+    precedence 6, Left => {
         Coalesce: coalesce,
     }
 }
